@@ -87,6 +87,24 @@ func ClientID(r *rand.Rand, htype byte, chaddr []byte) []byte {
 var textCodes = []byte{12, 14, 15, 17, 18, 40, 47, 56, 60, 62, 64, 66, 67, 86, 87, 98, 100, 101, 114, 12, 15, 66, 67}
 
 func Text(r *rand.Rand, n int) []byte {
+	if n > 3 && r.IntN(4) == 0 {
+		// text in other scripts: UTF-8 with two-, three- and four-octet characters (many octets, few characters), filled
+		// up to n octets with ASCII
+		src := []rune("地址已分配给客户端租约续订成功Адрес назначен клиенту аренда продлена عنوان مخصص للعميل 🙂🚀émetteur réseau")
+		var out []byte
+		off := r.IntN(len(src))
+		for i := 0; ; i++ {
+			c := string(src[(off+i)%len(src)])
+			if len(out)+len(c) > n {
+				break
+			}
+			out = append(out, c...)
+		}
+		for len(out) < n {
+			out = append(out, '.')
+		}
+		return out
+	}
 	b := make([]byte, n)
 	words := "DESKTOP-4F2K9 example.org /tftpboot/pxelinux.0 MSFT 5.0 udhcp 1.36.1 android-dhcp-13 host_7 "
 	off := r.IntN(len(words))
